@@ -768,6 +768,65 @@ func arrEv(k arrKind, idx []int32, elts [][]byte, probes []int32) Ev {
 	return e
 }
 
+// arrBigEv: a large array regenerated from (kind, n, kseed): n ascending indexes below 2^20
+// in clusters separated by empty words, random elements, ~400 probes (members, neighbours,
+// word edges, the ends).  Layer M fields are dropped; `pos` is the witness of each probe: the
+// 1-based position of the greatest index <= probe (0 if none), verified by the spec.
+func arrBigEv(k arrKind, n int, kseed int64) Ev {
+	r := rand.New(rand.NewSource(kseed))
+	idx := make([]int32, 0, n)
+	x := int32(r.Intn(64))
+	room := int32(1<<20) - int32(n) - 64
+	for len(idx) < n {
+		idx = append(idx, x)
+		step := int32(1)
+		if room > 0 && r.Intn(8) == 0 {
+			g := int32(r.Intn(150))
+			if g > room {
+				g = room
+			}
+			room -= g
+			step += g
+		}
+		x += step
+	}
+	elts := randElts(r, n, k.w)
+	ps := map[int32]bool{0: true, idx[0]: true, idx[n-1]: true, idx[n-1] | 63: true}
+	for i := 0; i < 130; i++ {
+		j := r.Intn(n)
+		if i < 40 {
+			j = n - 1 - r.Intn(300) // the last elements: the largest offsets
+		}
+		for d := int32(-1); d <= 1; d++ {
+			if idx[j]+d >= 0 && idx[j]+d <= idx[n-1]|63 {
+				ps[idx[j]+d] = true
+			}
+		}
+	}
+	for _, j := range []int{32766, 32767, 32768, 65534, 65535, 65536} {
+		if j < n {
+			ps[idx[j]] = true
+		}
+	}
+	probes := []int32{}
+	for p := range ps {
+		probes = append(probes, p)
+	}
+	sort.Slice(probes, func(a, b int) bool { return probes[a] < probes[b] })
+	e := arrEv(k, idx, elts, probes)
+	e["ev"] = "arrbig"
+	e["params"] = Ev{"type": k.name, "n": n, "kseed": fmt.Sprint(kseed)}
+	for _, f := range []string{"bits", "offsets", "wire"} {
+		delete(e, f)
+	}
+	pos := make([]int, len(probes))
+	for i, p := range probes {
+		pos[i] = sort.Search(n, func(j int) bool { return idx[j] > p })
+	}
+	e["pos"] = pos
+	return e
+}
+
 // zeroElt: the zero value of the element type of kind k
 func zeroElt(k arrKind) interface{} {
 	return reflect.Zero(reflect.TypeOf(genericElts(k, nil)).Elem()).Interface()
@@ -964,6 +1023,25 @@ func genArray(t *Tracer, m *Meta, tier string, seed int64) {
 		emit(arrEv(k, idx, randElts(r, len(idx), k.w), probesFor(r, idx)))
 		m.Distinct++
 		m.class("random:" + []string{"dense", "sparse", "gappy", "edges"}[i%4])
+	}
+	// (2b) large arrays: element counts on both sides of 2^15 and 2^16 (offsets and counts are
+	// 32-bit in the stored form; a narrower intermediate shows only here).  Too large for the
+	// Model's quadratic Offsets(): judged by Layer P with a position witness per probe.
+	// every typed accessor has its own offset arithmetic: one array above 2^16 elements per
+	// element type in every run (its offsets pass 2^15 and 2^16 on the way)
+	for _, k := range arrKinds {
+		n := 65536 + r.Intn(6000)
+		emit(arrBigEv(k, n, r.Int63()))
+		m.Distinct++
+		m.class("large:" + k.name)
+	}
+	if !quick {
+		for i, n := range []int{32767, 32768, 32769, 40000, 65535, 65536, 65537, 90000} {
+			k := arrKinds[(i+int(seed))%len(arrKinds)]
+			emit(arrBigEv(k, n, r.Int63()))
+			m.Distinct++
+			m.class("large:" + fmt.Sprint(n>>15) + "x2^15")
+		}
 	}
 	// (3) invalid inputs: equal or descending neighbours at any position; length off by any amount
 	nBad := 500
@@ -1390,6 +1468,16 @@ func miscReplay(t *Tracer, name string, e map[string]interface{}) bool {
 		_ = m
 		_ = t2
 		replayCodecOther(t, name, e, r)
+		return true
+	case "arrbig":
+		pr := e["params"].(map[string]interface{})
+		var ks int64
+		fmt.Sscan(pr["kseed"].(string), &ks)
+		for _, k := range arrKinds {
+			if k.name == pr["type"].(string) {
+				t.Emit(arrBigEv(k, int(pr["n"].(float64)), ks))
+			}
+		}
 		return true
 	case "arr":
 		typ := e["type"].(string)
